@@ -9,7 +9,7 @@ for d in $(ls -d $root/C*/ 2>/dev/null); do
   for pd in $(find $d -name patch.diff | sort); do
     if git apply --check $pd 2>/dev/null; then
       git apply $pd
-      out=$(cd /verif && ./check $p 2>&1); code=$?
+      out=$(cd /verif && VERIF_OUT=/tmp/verif_seed_out ./check $p 2>&1); code=$?
       git checkout -- .
       echo "[$code] $pd :: $(echo "$out" | grep -c '^VIOLATION') violation(s) :: $(echo "$out" | grep -A1 '^VIOLATION' | grep -v '^VIOLATION' | grep -v '^--' | head -2 | cut -c1-200 | tr '\n' '|')"
     else
